@@ -35,6 +35,8 @@ struct Marker<'a> {
     return_points: usize,
     ret_ty: Option<syn::Type>,
     hoist_n: usize,
+    dead_probes: Vec<usize>,
+    features: Vec<String>,
 }
 
 fn callee_key(e: &Expr) -> Option<(String, Vec<String>)> {
@@ -118,7 +120,14 @@ impl<'a> Marker<'a> {
     }
     fn mark_tail(&mut self, e: &mut Expr) {
         match e {
-            Expr::If(i) => { self.mark_block_tail(&mut i.then_branch); if let Some((_, el)) = &mut i.else_branch { self.mark_tail(el); } }
+            Expr::If(i) => {
+                let cond = norm(&i.cond.to_token_stream().to_string());
+                let dead = self.spec.dead_conds.iter().any(|(f, c)| *c == cond && (f == "-" || self.features.contains(f)));
+                let start = *self.probe_n;
+                self.mark_block_tail(&mut i.then_branch);
+                if dead { for k in start..*self.probe_n { self.dead_probes.push(k); } }
+                if let Some((_, el)) = &mut i.else_branch { self.mark_tail(el); }
+            }
             Expr::Block(b) if b.label.is_none() => self.mark_block_tail(&mut b.block),
             Expr::Match(m) => { for arm in m.arms.iter_mut() { self.mark_tail(&mut arm.body); } }
             Expr::Unsafe(_) => {}
@@ -288,6 +297,19 @@ impl<'a> VisitMut for Marker<'a> {
         b.stmts = out;
     }
     fn visit_expr_if_mut(&mut self, i: &mut syn::ExprIf) {
+        let cond = norm(&i.cond.to_token_stream().to_string());
+        let dead = self.spec.dead_conds.iter().any(|(f, c)| *c == cond && (f == "-" || self.features.contains(f)));
+        if dead {
+            // probes inside a branch the contract declares (and the proof shows) unreachable are expected to verify
+            let start = *self.probe_n;
+            self.visit_expr_mut(&mut i.cond);
+            self.visit_block_mut(&mut i.then_branch);
+            if let Some(p) = self.probe() { i.then_branch.stmts.insert(0, p); }
+            let end = *self.probe_n;
+            for k in start..end { self.dead_probes.push(k); }
+            if let Some((_, el)) = &mut i.else_branch { self.visit_expr_mut(el); if let Expr::Block(b) = &mut **el { if let Some(p) = self.probe() { b.block.stmts.insert(0, p); } } }
+            return;
+        }
         visit_mut::visit_expr_if_mut(self, i);
         if let Some(p) = self.probe() { i.then_branch.stmts.insert(0, p); }
         if let Some((_, el)) = &mut i.else_branch { if let Expr::Block(b) = &mut **el { if let Some(p) = self.probe() { b.block.stmts.insert(0, p); } } }
@@ -373,7 +395,7 @@ fn lower_only(args: &[String]) {
 
 pub struct FnOut {
     path: String, src: String, src_line: usize, contract_only: bool, from_unit: String,
-    hints: usize, hint_kinds: BTreeMap<String, usize>, loops: usize, return_points: usize, probes: Vec<usize>, lowered_sites: usize,
+    hints: usize, hint_kinds: BTreeMap<String, usize>, loops: usize, return_points: usize, probes: Vec<usize>, lowered_sites: usize, dead_probes: Vec<usize>,
 }
 
 struct Gen<'a> {
@@ -387,6 +409,7 @@ struct Gen<'a> {
     probe_n: usize,
     fns: Vec<FnOut>,
     specs: BTreeMap<String, FnSpec>,
+    shape_results: Vec<(String, bool, Vec<String>, String)>,
 }
 
 impl<'a> Gen<'a> {
@@ -417,7 +440,7 @@ impl<'a> Gen<'a> {
             }
         }
         let spec = unit.fns.get(&path).cloned().unwrap_or_default();
-        let mut fo = FnOut { path: path.clone(), src: src.to_string(), src_line, contract_only, from_unit: unit.name.clone(), hints: 0, hint_kinds: BTreeMap::new(), loops: 0, return_points: 0, probes: vec![], lowered_sites: 0 };
+        let mut fo = FnOut { path: path.clone(), src: src.to_string(), src_line, contract_only, from_unit: unit.name.clone(), hints: 0, hint_kinds: BTreeMap::new(), loops: 0, return_points: 0, probes: vec![], lowered_sites: 0, dead_probes: vec![] };
         if !contract_only && (unit.refcell_mut_fns.contains(&path) || unit.refcell_mut_unless.iter().any(|(feat, f)| f == &path && !self.features.contains(feat))) { if let Some(syn::FnArg::Receiver(r)) = sig.inputs.first_mut() { *r = parse_quote!(&mut self); } }
         rules::sig_rules(sig, &mut self.rules);
         if contract_only {
@@ -432,7 +455,7 @@ impl<'a> Gen<'a> {
             rules::alpha_rename(block, &mut self.rules);
             let mut hints = vec![];
             {
-                let mut mk = Marker { spec: &spec, loop_n: 0, hint_n: self.hint_base, hints: &mut hints, probes: self.probes, probe_n: &mut self.probe_n, fn_probes: vec![], return_points: 0, hoist_n: 0, ret_ty: match &sig.output { syn::ReturnType::Type(_, t) if !matches!(**t, syn::Type::ImplTrait(_)) => Some((**t).clone()), _ => None } };
+                let mut mk = Marker { spec: &spec, loop_n: 0, hint_n: self.hint_base, hints: &mut hints, probes: self.probes, probe_n: &mut self.probe_n, fn_probes: vec![], return_points: 0, hoist_n: 0, dead_probes: vec![], features: self.features.to_vec(), ret_ty: match &sig.output { syn::ReturnType::Type(_, t) if !matches!(**t, syn::Type::ImplTrait(_)) => Some((**t).clone()), _ => None } };
                 mk.visit_block_mut(block);
                 let has_ret = !matches!(sig.output, syn::ReturnType::Default);
                 if has_ret { mk.mark_block_tail(block); }
@@ -446,7 +469,7 @@ impl<'a> Gen<'a> {
                 }
                 if let Some(p) = mk.probe() { block.stmts.insert(0, p); }
                 self.hint_base = mk.hint_n;
-                fo.loops = mk.loop_n; fo.return_points = mk.return_points; fo.probes = mk.fn_probes.clone();
+                fo.loops = mk.loop_n; fo.return_points = mk.return_points; fo.probes = mk.fn_probes.clone(); fo.dead_probes = mk.dead_probes.clone();
             }
             for h in &hints { if !h.template.trim().is_empty() { fo.hints += 1; *fo.hint_kinds.entry(h.kind.clone()).or_default() += 1; } }
             self.all_hints.extend(hints);
@@ -469,6 +492,19 @@ impl<'a> Gen<'a> {
                     let mut item = item.clone();
                     match (&mut item, take) {
                         (Item::Struct(s), Take::Item { kind, name }) if kind == "struct" && s.ident == name => {
+                            // shape obligations on field attributes (checked on the original attributes, before rule D drops them)
+                            if !contract_only {
+                                for (st, fl, req, props) in &unit.shape_attrs {
+                                    if s.ident == st {
+                                        let (neg, want) = match req.strip_prefix('!') { Some(w) => (true, w.to_string()), None => (false, req.clone()) };
+                                        let mut found_field = false; let mut has = false;
+                                        for f in s.fields.iter() { if f.ident.as_ref().map(|i| i == fl).unwrap_or(false) { found_field = true;
+                                            for a in &f.attrs { let t = norm(&a.meta.to_token_stream().to_string()); if t == want || (t.starts_with("serde(") && want.starts_with("serde(") && t[6..t.len()-1].split(',').any(|p| p == &want[6..want.len()-1])) { has = true; } } } }
+                                        let ok = found_field && (has != neg);
+                                        self.shape_results.push((format!("{}.{}::shape-attr@{}", st, fl, req), ok, props.clone(), format!("{}:{}", src, s.ident.span().start().line)));
+                                    }
+                                }
+                            }
                             rules::clean_attrs(&mut s.attrs, &mut self.rules);
                             for f in s.fields.iter_mut() { rules::clean_attrs(&mut f.attrs, &mut self.rules); f.vis = parse_quote!(pub); }
                             rules::BodyRules { rules: &mut self.rules, unit, features: self.features, tyname: None, fnpath: String::new() }.visit_item_struct_mut(s);
@@ -580,7 +616,7 @@ fn main() {
         for n in drop { fs.loops.remove(&n); }
     }
     let mut rules0 = rules::Rules::default(); rules0.extra_drop_derives = unit.drop_derives.clone();
-    let mut gen = Gen { repo, features: &features, probes, rules: rules0, items_ts: TokenStream::new(), all_hints: vec![], hint_base: 0, probe_n: 1, fns: vec![], specs: BTreeMap::new() };
+    let mut gen = Gen { repo, features: &features, probes, rules: rules0, items_ts: TokenStream::new(), all_hints: vec![], hint_base: 0, probe_n: 1, fns: vec![], specs: BTreeMap::new(), shape_results: vec![] };
     let mut pre: Vec<String> = vec![];
     let mut inside: Vec<String> = vec![];
     for imp in &unit.imports {
@@ -776,6 +812,7 @@ fn main() {
             ("hint_asserts", J::n(count_asserts(spec, f))),
             ("return_points", J::n(f.return_points)), ("lowered_sites", J::n(f.lowered_sites)),
             ("probes", J::A(f.probes.iter().map(|p| J::n(*p)).collect())),
+            ("dead_probes", J::A(f.dead_probes.iter().map(|p| J::n(*p)).collect())),
             ("loop_names", J::O(loop_names.iter().filter(|((ff, _), _)| *ff == f.path).map(|((_, n), mp)| (n.to_string(), J::O(mp.iter().map(|(a, b)| (a.clone(), J::s(b))).collect()))).collect())),
         ]));
     }
@@ -809,6 +846,7 @@ fn main() {
             ("lowered_sites", J::n(gen.fns.iter().map(|f| f.lowered_sites).sum())),
         ])),
         ("trusted", J::A(trusted)),
+        ("shape_obligations", J::A(gen.shape_results.iter().map(|(n, ok, props, site)| J::obj(vec![("name", J::s(n)), ("ok", J::B(*ok)), ("props", J::A(props.iter().map(|p| J::s(p)).collect())), ("site", J::s(site))])).collect())),
         ("lines", J::n(tl.len())),
     ]);
     std::fs::write(format!("{}.json", pos[2]), side.to_string()).unwrap();
